@@ -5,6 +5,8 @@ cases
   {"t": "recvfam", "stream": hex, "lim": n}         the whole stream, every 2-split, 3-splits of the first n bytes, byte by byte
   {"t": "send", "items": [[khex, vhex], ...]}       AmpBox(dict(items)).serialize()
   {"t": "sendstr", "key": str|None, "val": str|None} a box with a str (non-bytes) key or value
+  {"t": "sendseq", "boxes": [[[khex, vhex(, "str")], ...], ...]}   sendBox() of each box in turn on one connection, then all
+                                                    bytes written are given to a receiver:  OK:<hex>|ERR:<hex written> ... => boxes
   {"t": "arg", "ty": T, "val": V}                   T = "int" | "str" | "bool" | "dec" | "date" | "uni" | ["list", T]
                                                     V = int | hex | bool | ["fin", neg, coefficient, exponent] | ["inf", neg] |
                                                     ["nan", neg, signalling, payload] | [y, mo, d, h, mi, s, us, offset minutes] |
@@ -71,6 +73,42 @@ def send_impl(items):
         return "OK:" + amp.AmpBox(dict(items)).serialize().hex()
     except (amp.TooLong, ValueError, TypeError):
         return "ERR"
+
+
+def sendseq_impl(boxes):
+    """sendBox(box) for each box on ONE BinaryBoxProtocol; what each call wrote; then all of it through a real receiver"""
+    from twisted.internet.testing import StringTransport
+    from twisted.protocols import amp
+
+    class R:
+        def startReceivingBoxes(self, sender):
+            pass
+
+        def ampBoxReceived(self, box):
+            pass
+
+        def stopReceivingBoxes(self, reason):
+            pass
+
+    p = amp.BinaryBoxProtocol(R())
+    t = StringTransport()
+    p.makeConnection(t)
+    calls, wire = [], b""
+    for items in boxes:
+        t.clear()
+        try:
+            p.sendBox(amp.AmpBox(dict(items)))
+            tag = "OK:"
+        except (amp.TooLong, ValueError, TypeError):
+            tag = "ERR:"
+        w = t.value()
+        wire += w
+        calls.append(tag + w.hex())
+    return " ".join(calls) + " => " + recv_impl([wire])
+
+
+def _seq_items(box):
+    return [(bytes.fromhex(i[0]), (bytes.fromhex(i[1]).decode("latin-1") if len(i) > 2 else bytes.fromhex(i[1]))) for i in box]
 
 
 def _arg(ty):
@@ -189,6 +227,16 @@ def argx_impl(ty, v):
         tz = amp.utc if v[7] is None else amp._FixedOffsetTZInfo.fromSignHoursMinutes(*v[7])
         a, x = amp.DateTime(), datetime.datetime(*v[:7], tzinfo=tz)
         same = _dt_same
+    elif ty == "amplist2":
+        # rows with optional fields: v = [[a, bhex|None, c|None, dhex|None], ...]
+        a = amp.AmpList([(b"a", amp.Integer()), (b"b", amp.String(optional=True)), (b"c", amp.Integer(optional=True)),
+                         (b"d", amp.ListOf(amp.String(), optional=True))])
+        mk = lambda r: {"a": r[0], "b": None if r[1] is None else bytes.fromhex(r[1]), "c": r[2],
+                        "d": None if r[3] is None else [bytes.fromhex(x) for x in r[3]]}
+        x = [mk(r) for r in v]
+        e = a.toStringProto(x, None)
+        y = a.fromStringProto(e, None)
+        return "E:" + e.hex() + (" RT:same" if y == x else " RT:DIFF:" + repr(y)[:120])
     elif ty == "amplist":
         a = amp.AmpList([(b"a", amp.Integer()), (b"b", amp.String()), (b"c", amp.ListOf(amp.Decimal()))])
         x = [{"a": d[0], "b": bytes.fromhex(d[1]), "c": [decimal.Decimal(s) for s in d[2]]} for d in v]
@@ -234,6 +282,8 @@ def impl(case) -> str:
         k = case["key"] if case["key"] is not None else b"k"
         v = case["val"] if case["val"] is not None else b"v"
         return send_impl([(k, v)])
+    if t == "sendseq":
+        return sendseq_impl([_seq_items(b) for b in case["boxes"]])
     if t == "arg":
         return arg_impl(case["ty"], case["val"])
     return argx_impl(case["ty"], case["val"])
@@ -289,6 +339,29 @@ def oracle(case, obs):
             return Failure(case, f"reference reading of the stream: {want[:200]}; received: {obs[:200]}",
                            "recv-differs-from-reference" if len(chunks) == 1 else "recv-split-differs")
         return None
+    if t == "sendseq":
+        calls, received = obs.split(" => ")
+        calls = calls.split(" ")
+        expect = []
+        for k, (box, call) in enumerate(zip(case["boxes"], calls)):
+            items = _seq_items(box)
+            ok = all(isinstance(v, bytes) and 1 <= len(kk) <= 255 and len(v) <= 65535 for kk, v in items)
+            if not ok:
+                if not call.startswith("ERR:"):
+                    return Failure(case, f"sendBox #{k}: an unrepresentable box was not refused", "sendseq-unrepresentable-not-refused")
+                if call != "ERR:":
+                    return Failure(case, f"sendBox #{k} refused the box but had already written {len(call) // 2 - 2} bytes "
+                                         f"({call[4:68]}...): the peer will merge them into the next box",
+                                   "sendseq-refused-box-wrote-bytes")
+            else:
+                w = wire(sorted(items)).hex()
+                if call != "OK:" + w:
+                    return Failure(case, f"sendBox #{k} wrote {call[:80]} instead of {w[:80]}", "sendseq-wire-differs")
+                expect.append(sorted(items))
+        want = _fmt(expect) + " |open"
+        if received != want:
+            return Failure(case, f"after the calls the peer received {received[:200]}, expected {want[:200]}", "sendseq-later-box-corrupted")
+        return None
     if t in ("send", "sendstr"):
         if t == "sendstr":
             if obs != "ERR":
@@ -331,6 +404,20 @@ def oracle(case, obs):
         if obs != want:
             return Failure(case, f"expected {want[:160]}, got {obs[:160]}", "arg-roundtrip-" + (ty if isinstance(ty, str) else "list"))
         return None
+    if t == "argx" and case["ty"] == "amplist2" and obs.startswith("E:"):
+        ref = b""
+        for a_, b_, c_, d_ in case["val"]:
+            row = {b"a": str(a_).encode()}
+            if b_ is not None:
+                row[b"b"] = bytes.fromhex(b_)
+            if c_ is not None:
+                row[b"c"] = str(c_).encode()
+            if d_ is not None:
+                row[b"d"] = b"".join(struct.pack("!H", len(x) // 2) + bytes.fromhex(x) for x in d_)
+            ref += wire(sorted(row.items()))
+        if obs.split(" ")[0] != "E:" + ref.hex():
+            return Failure(case, f"AmpList rows encode to {obs[2:120]}..., expected {ref.hex()[:120]}... (a field that is None in a row "
+                                 f"must not appear in that row's box)", "argx-amplist-optional-field-leaks")
     if obs.startswith("ERR:"):
         legit = ((case["ty"] == "unicode" and obs == "ERR:UnicodeEncodeError" and any(0xD800 <= ord(ch) <= 0xDFFF for ch in case["val"]))
                  or (case["ty"] == "amplist" and obs == "ERR:TooLong" and any(len(d[1]) // 2 > 65535 for d in case["val"]))
@@ -501,6 +588,30 @@ def gen(rng, tier):
         if sum(len(k) + len(v) for k, v in items) < 3000 or rng.random() < 0.15:
             cases.append({"t": "send", "items": [[k.hex(), v.hex()] for k, v in items]})
     cases += [{"t": "sendstr", "key": None, "val": "text"}, {"t": "sendstr", "key": None, "val": ""}]
+    # histories of sendBox calls on one connection: valid boxes mixed with boxes that must be refused, the offending
+    # pair at every position of the sorted key order; a refusal must write nothing, later boxes must arrive exactly
+    for _ in range(n):
+        seq = []
+        for _ in range(rng.choice([2, 3, 4, 6])):
+            items = dict(rand_box(rng, small=True))
+            box = [[k.hex(), v.hex()] for k, v in sorted(items.items())]
+            r = rng.random()
+            if r < 0.45:
+                bad = rng.choice(["longkey", "str", "empty"] * 4 + ["longval"])
+                pos = rng.choice(["first", "middle", "last"])
+                name = {"first": b"\x00", "middle": b"am", "last": b"zz"}[pos]
+                if bad == "longkey":
+                    pair = [(name + b"k" * 256).hex(), "76"]
+                elif bad == "longval":
+                    pair = [name.hex(), bytes(65536).hex()]
+                elif bad == "str":
+                    pair = [name.hex(), b"text".hex(), "str"]
+                else:
+                    pair = ["", "76"]
+                box = sorted(box + [pair], key=lambda i: bytes.fromhex(i[0]))
+            seq.append(box)
+        seq.append([[b"end".hex(), b"1".hex()]])
+        cases.append({"t": "sendseq", "boxes": seq})
     # argument types
     tys = ["int", "str", "bool", ["list", "int"], ["list", "str"], ["list", "bool"], ["list", ["list", "int"]], ["list", ["list", ["list", "str"]]],
            "dec", "dec", "dec", "date", "uni", ["list", "dec"], ["list", "uni"], ["list", "date"], ["list", ["list", "dec"]]]
@@ -508,7 +619,8 @@ def gen(rng, tier):
         ty = rng.choice(tys)
         cases.append({"t": "arg", "ty": ty, "val": rand_val(rng, ty)})
     for _ in range(3 * n):
-        k = rng.choice(["float", "decimal", "decimal", "decimal", "unicode", "path", "datetime", "amplist", "listdecimal", "listfloat"])
+        k = rng.choice(["float", "decimal", "decimal", "decimal", "unicode", "path", "datetime", "amplist", "amplist2", "amplist2",
+                        "listdecimal", "listfloat"])
         cases.append({"t": "argx", "ty": k, "val": rand_argx(rng, k)})
     return cases
 
@@ -571,6 +683,14 @@ def rand_argx(rng, k):
         y, mo, d = rng.choice([(1, 1, 1), (9999, 12, 31), (1970, 1, 1), (2000, 2, 29), (2024, rng.randrange(1, 13), rng.randrange(1, 29))])
         h, mi, s = rng.choice([(0, 0, 0), (23, 59, 59), (rng.randrange(24), rng.randrange(60), rng.randrange(60))])
         return [y, mo, d, h, mi, s, rng.choice([0, 1, 999999, 999999, rng.randrange(10 ** 6)]), off]
+    if k == "amplist2":     # optional fields present / absent per row; present-then-absent in particular
+        opt = lambda f: None if rng.random() < 0.5 else f()
+        rows = [[rng.randrange(-5, 100), opt(lambda: bytes(rng.choice(b"xy") for _ in range(rng.choice([0, 1, 3]))).hex()),
+                 opt(lambda: rng.randrange(1000)), opt(lambda: [b"e".hex()] * rng.choice([0, 1, 2]))] for _ in range(rng.choice([1, 2, 3, 5]))]
+        if rng.random() < 0.5 and len(rows) >= 2:
+            rows[0][1], rows[0][2], rows[0][3] = "7365743161", 7, ["6c"]
+            rows[1][1], rows[1][2], rows[1][3] = None, None, None
+        return rows
     # amplist: a = Integer, b = String, c = ListOf(Decimal)
     blen = lambda: rng.choice([0, 1, 3, 255, 256, 65535 if rng.random() < 0.1 else 7, 65536 if rng.random() < 0.05 else 2])
     return [[rng.choice([0, -1, 2 ** 64, -(2 ** 64), 2 ** 1000, rng.randrange(-100, 100)]), bytes(blen()).hex(),
@@ -587,6 +707,11 @@ def corpus():
         {"t": "send", "items": [["6b", bytes(65536).hex()]]},
         {"t": "send", "items": [["6b", bytes(65535).hex()]]},
         {"t": "recv", "chunks": ["00", "0161", "0001", "62", "0000"]},
+        # a refused box must not leave bytes on the wire (the offending pair sorts last / in the middle)
+        {"t": "sendseq", "boxes": [[["61", "31"], ["62", "32"], [(b"z" * 256).hex(), "33"]], [["63", "34"]]]},
+        {"t": "sendseq", "boxes": [[["61", "31"], ["6d", "74657874", "str"], ["7a", "32"]], [["63", "34"]], [["", "35"], ["64", "36"]], [["65", "37"]]]},
+        # AmpList rows with optional fields: set in the first row, None in the second
+        {"t": "argx", "ty": "amplist2", "val": [[1, "7365743161", 7, ["6c"]], [2, None, None, None], [3, "", 0, []]]},
         {"t": "recv", "chunks": ["0100"]},
         {"t": "recv", "chunks": ["00016100", "ff", "7a" * 255, "0000"]},
         {"t": "recv", "chunks": ["000161000162000161000163", "0000"]},
@@ -659,6 +784,11 @@ def to_coq(case):
             return None          # very large literals: oracle only
         items = coq_list([f"({coq_bytes(bytes.fromhex(k))}, {coq_bytes(bytes.fromhex(v))})" for k, v in case["items"]], "item")
         return f"Send false {items}"
+    if t == "sendseq":
+        if any(len(i) > 2 for b in case["boxes"] for i in b) or sum(len(i[0]) + len(i[1]) for b in case["boxes"] for i in b) > 12000:
+            return None          # str values / very large literals: oracle only
+        boxes = [coq_list([f"({coq_bytes(bytes.fromhex(i[0]))}, {coq_bytes(bytes.fromhex(i[1]))})" for i in b], "item") for b in case["boxes"]]
+        return "SendSeq " + coq_list(boxes, "box")
     if t == "arg":
         if len(str(case["val"])) > 30000:
             return None          # very large literals: oracle only
@@ -667,6 +797,19 @@ def to_coq(case):
 
 
 def shrink(case):
+    if case["t"] == "sendseq":
+        bs = case["boxes"]
+        for i in range(len(bs)):
+            yield {**case, "boxes": bs[:i] + bs[i + 1:]}
+        for i, b in enumerate(bs):
+            for j in range(len(b)):
+                yield {**case, "boxes": bs[:i] + [b[:j] + b[j + 1:]] + bs[i + 1:]}
+        return
+    if case["t"] == "argx" and case["ty"] == "amplist2":
+        v = case["val"]
+        for i in range(len(v)):
+            yield {**case, "val": v[:i] + v[i + 1:]}
+        return
     if case["t"] == "recv":
         ch = case["chunks"]
         for i in range(len(ch) - 1):
